@@ -7,6 +7,7 @@ fuel of a loop runs out.
 -/
 import Ymq.Lemmas.GcdLoop
 import Ymq.Lemmas.GcdReduceInv
+import Ymq.Lemmas.GcdTerm
 
 namespace Ymq.C09
 open Ymq.Gcd
@@ -58,6 +59,22 @@ theorem gcd_internal_spec (N : Nat) (hN : 0 < N) (ext : Bool) (fuel n p d : Nat)
 example : gcdLoop 16 true 10 (initSt 1234567890123456789012345678901234567890
       9876543210987654321098765432109876543210) = some (90000000009000000000900000000090, -8, 1) := by
   decide +kernel
+
+/-- termination of `gcd_internal` with an explicit fuel bound: for operands that are values of
+`BUint<N>`, running the loop with more than `3 (bits n + bits p) + 1` units of fuel gives the same
+result as running it with exactly that much — so with that fuel (and with the fuel
+`gcdFuel N = 384 N + 3` used by `gcdInternal`, which is larger) the model never returns `none` for
+lack of fuel: `none` can only be a panic site. Reason: every iteration that continues shrinks the
+product `x * y` by a factor `3/4` at least (quotient steps: `1/2`; Lehmer steps: analysis of
+`reduce64` on the top words). -/
+theorem gcd_terminates (N : Nat) (ext : Bool) (n p : Nat) (hn : n < 2 ^ (64 * N)) (hp : p < 2 ^ (64 * N))
+    (f : Nat) (hf : 3 * (bits n + bits p) + 1 ≤ f) :
+    gcdLoop N ext f (initSt n p) = gcdLoop N ext (3 * (bits n + bits p) + 1) (initSt n p) ∧
+    3 * (bits n + bits p) + 1 ≤ gcdFuel N :=
+  ⟨gcdLoop_fuel hn hp f hf, gcdFuel_ge hn hp⟩
+
+example : (12345678901234567890 : Nat) < 2 ^ (64 * 4) ∧ 3 * (bits 12345678901234567890 + bits 987654321) + 1 = 283 ∧
+    gcdFuel 4 = 1539 := by decide +kernel
 
 /-- `big_gcd::<N>` returns the gcd (including zero operands) whenever it returns. -/
 theorem big_gcd_spec (N : Nat) (hN : 0 < N) (n p d : Nat) (h : bigGcd N n p = some d) :
